@@ -1,16 +1,51 @@
 //! C15: byte-slice decoding and endianness helpers (`*_bytes` need `--features nightly`).
+//!
+//! Every op `X` also exists as `X@be`: the same method, but the request asks for the behaviour on a
+//! BIG-endian target.  A binary answers only the requests of its own `cfg(target_endian)` and `skip`s the
+//! others, so the usual x86_64 builds skip `X@be`; `gen/c15.py:post` runs this same binary under Miri for
+//! `s390x-unknown-linux-gnu`, where the `#[cfg(target_endian = "big")]` arms of `endian.rs` are compiled.
 use bnum_verif_harness::*;
+
+// Answer printing by table lookup instead of `format!` (same text as `Out::out` / `show_bytes` of the
+// library): the big-endian run of this binary is interpreted by Miri, where `format!` per byte is slow.
+const HEX: &[u8; 16] = b"0123456789abcdef";
+/// every byte as two hex digits (`-` = empty)
+fn hex_bytes(b: &[u8]) -> String {
+    if b.is_empty() {
+        return "-".into();
+    }
+    let mut s = String::with_capacity(2 * b.len());
+    for &x in b {
+        s.push(HEX[(x >> 4) as usize] as char);
+        s.push(HEX[(x & 15) as usize] as char);
+    }
+    s
+}
+/// canonical pattern text: hex of the value, no leading zeros (`0` for zero)
+fn hex_val<T: Pat>(x: &T) -> String {
+    let mut be = x.pat_to_le();
+    be.reverse();
+    let s = hex_bytes(&be);
+    let t = s.trim_start_matches(|c| c == '0' || c == '-');
+    if t.is_empty() { "0".into() } else { t.to_string() }
+}
+fn hex_opt<T: Pat>(x: Option<T>) -> String {
+    match x {
+        Some(v) => { let mut s = String::from("S("); s.push_str(&hex_val(&v)); s.push(')'); s }
+        None => "N".into(),
+    }
+}
 
 macro_rules! ops {
     ($T:ty, $op:expr, $a:expr) => {{
         let a: &[&str] = $a;
         match $op {
-            "from_be_slice" => Some(<$T>::from_be_slice(&parse_bytes(a[0])).out()),
-            "from_le_slice" => Some(<$T>::from_le_slice(&parse_bytes(a[0])).out()),
-            "to_be" => Some(<$T>::from_hex(a[0]).to_be().out()),
-            "to_le" => Some(<$T>::from_hex(a[0]).to_le().out()),
-            "from_be" => Some(<$T>::from_be(<$T>::from_hex(a[0])).out()),
-            "from_le" => Some(<$T>::from_le(<$T>::from_hex(a[0])).out()),
+            "from_be_slice" => Some(hex_opt(<$T>::from_be_slice(&parse_bytes(a[0])))),
+            "from_le_slice" => Some(hex_opt(<$T>::from_le_slice(&parse_bytes(a[0])))),
+            "to_be" => Some(hex_val(&<$T>::from_hex(a[0]).to_be())),
+            "to_le" => Some(hex_val(&<$T>::from_hex(a[0]).to_le())),
+            "from_be" => Some(hex_val(&<$T>::from_be(<$T>::from_hex(a[0])))),
+            "from_le" => Some(hex_val(&<$T>::from_le(<$T>::from_hex(a[0])))),
             _ => ops_nightly!($T, $op, a),
         }
     }};
@@ -22,12 +57,12 @@ macro_rules! ops_nightly {
         const BY: usize = <$T>::BYTES as usize;
         let arr = |s: &str| -> [u8; BY] { let v = parse_bytes(s); let mut x = [0u8; BY]; x.copy_from_slice(&v); x };
         match $op {
-            "to_be_bytes" => Some(show_bytes(&<$T>::from_hex(a[0]).to_be_bytes())),
-            "to_le_bytes" => Some(show_bytes(&<$T>::from_hex(a[0]).to_le_bytes())),
-            "to_ne_bytes" => Some(show_bytes(&<$T>::from_hex(a[0]).to_ne_bytes())),
-            "from_be_bytes" => Some(<$T>::from_be_bytes(arr(a[0])).out()),
-            "from_le_bytes" => Some(<$T>::from_le_bytes(arr(a[0])).out()),
-            "from_ne_bytes" => Some(<$T>::from_ne_bytes(arr(a[0])).out()),
+            "to_be_bytes" => Some(hex_bytes(&<$T>::from_hex(a[0]).to_be_bytes())),
+            "to_le_bytes" => Some(hex_bytes(&<$T>::from_hex(a[0]).to_le_bytes())),
+            "to_ne_bytes" => Some(hex_bytes(&<$T>::from_hex(a[0]).to_ne_bytes())),
+            "from_be_bytes" => Some(hex_val(&<$T>::from_be_bytes(arr(a[0])))),
+            "from_le_bytes" => Some(hex_val(&<$T>::from_le_bytes(arr(a[0])))),
+            "from_ne_bytes" => Some(hex_val(&<$T>::from_ne_bytes(arr(a[0])))),
             _ => None,
         }
     }};
@@ -51,8 +86,14 @@ macro_rules! imp {
     }};
 }
 
+const OPS: [&str; 12] = ["from_be_slice", "from_le_slice", "to_be", "to_le", "from_be", "from_le", "to_be_bytes",
+    "to_le_bytes", "to_ne_bytes", "from_be_bytes", "from_le_bytes", "from_ne_bytes"];
+
 fn main() {
     serve(|op, cfg, args| {
+        let (op, want_big) = match op.strip_suffix("@be") { Some(o) => (o, true), None => (op, false) };
+        if !OPS.contains(&op) { return None; }
+        if want_big != cfg!(target_endian = "big") { return Some("skip".into()); }
         let (signed, c) = split_cfg(cfg);
         let f: Option<fn(bool, &str, &[&str]) -> Option<String>> = for_config!(c, imp);
         f.and_then(|f| f(signed, op, args))
